@@ -410,7 +410,7 @@ H_SET = {
 }
 H_READ = ["pack", "pack(recalc_crc=False)", "calc_crc", "to_space_packet", "decode-another", "setters-on-a-twin"]
 H_EVENTS = H_READ + ["%s=%d" % (k, i) for k in ("apid", "seq_count", "source_id", "app_data") for i in range(len(H_SET[k]))]
-H_MODES = ["constructed", "decoded", "from_sp_header", "from_composite_fields"]
+H_MODES = ["constructed", "decoded", "from_sp_header", "from_composite_fields", "constructed(bytearray)", "decoded(bytearray)"]  # the last two: application data / receive buffer handed over as bytearray (mutable: in-place aliasing shows only here)
 H_OTHER = dict(service=0xC3, subservice=0x3C, apid=0x123, seq_count=0x0ABC, source_id=0x1357, ack_flags=0b0110, app_data=b"\xde\xad\xbe\xef\x99")
 H_KEYS = ("service", "subservice", "apid", "seq_count", "source_id", "ack_flags", "app_data")
 _REF_MEMO = {}
@@ -441,6 +441,11 @@ def h_make(m, mode, model):
                        source_id=v["source_id"], ack_flags=v["ack_flags"])
     if mode == "decoded":
         return m.PusTc.unpack(h_ref(model))
+    if mode == "constructed(bytearray)":
+        return m.PusTc(v["service"], v["subservice"], apid=v["apid"], app_data=bytearray(v["app_data"]), seq_count=v["seq_count"],
+                       source_id=v["source_id"], ack_flags=v["ack_flags"])
+    if mode == "decoded(bytearray)":
+        return m.PusTc.unpack(bytearray(h_ref(model)))
     if mode == "from_sp_header":
         return m.PusTc.from_sp_header(SpacePacketHeader(PacketType.TC, v["apid"], v["seq_count"], 0), v["service"], v["subservice"],
                                       v["app_data"], v["source_id"], v["ack_flags"])
@@ -500,9 +505,9 @@ def run_history(rec: Rec, k, mode, events, nontrivial=True):
         o = h_make(m, mode, model)
     except Exception as e:
         return bad("start=%s/exception/%s" % (mode, type(e).__name__), repr(e), None)
-    crc = "fresh" if mode == "decoded" else "none"
+    crc = "fresh" if mode.startswith("decoded") else "none"
     pure("start=" + mode)
-    if mode == "decoded" and (o.crc16 is None or bytes(o.crc16) != h_ref(model)[-2:]):
+    if mode.startswith("decoded") and (o.crc16 is None or bytes(o.crc16) != h_ref(model)[-2:]):
         bad("start=decoded/crc16", o.crc16, h_ref(model)[-2:])
     for i, ev in enumerate(events):
         if state["failed"]:
